@@ -313,6 +313,24 @@ def table_agreement(ctx, obs, writer_q: str, reader_q: str, rule='TAB', ignore: 
         if isinstance(n, ast.Subscript) and isinstance(n.value, ast.Name) and n.value.id == param \
                 and isinstance(n.slice, ast.Constant) and isinstance(n.slice.value, str):
             read.setdefault(n.slice.value, n)
+        # d.get('k') / d.get('k', default) / d.pop('k') / 'k' in d
+        if isinstance(n, ast.Call) and isinstance(n.func, ast.Attribute) and n.func.attr in ('get', 'pop', 'setdefault') \
+                and isinstance(n.func.value, ast.Name) and n.func.value.id == param and n.args \
+                and isinstance(n.args[0], ast.Constant) and isinstance(n.args[0].value, str):
+            read.setdefault(n.args[0].value, n)
+        if isinstance(n, ast.Compare) and len(n.ops) == 1 and isinstance(n.ops[0], (ast.In, ast.NotIn)) \
+                and isinstance(n.left, ast.Constant) and isinstance(n.left.value, str) \
+                and isinstance(n.comparators[0], ast.Name) and n.comparators[0].id == param:
+            read.setdefault(n.left.value, n)
+    # a reader that walks the whole mapping (for k, v in d.items()) reads every key
+    def _iterates_param(it):
+        if isinstance(it, ast.Name) and it.id == param:
+            return True
+        return isinstance(it, ast.Call) and isinstance(it.func, ast.Attribute) and it.func.attr in ('items', 'keys', 'values') \
+            and isinstance(it.func.value, ast.Name) and it.func.value.id == param
+    reads_all = any((isinstance(n, ast.For) and _iterates_param(n.iter)) or
+                    (isinstance(n, (ast.ListComp, ast.DictComp, ast.SetComp, ast.GeneratorExp))
+                     and any(_iterates_param(g.iter) for g in n.generators)) for n in ast.walk(rf.node))
     for k in reader_extra:
         read.setdefault(k, rf.node)
     n = 0
@@ -322,6 +340,9 @@ def table_agreement(ctx, obs, writer_q: str, reader_q: str, rule='TAB', ignore: 
         n += 1
         if k in written and k in read:
             obs.ok(rule, writer_q, f'key {k!r} written by {writer_q.split(".")[-1]} is read by {reader_q.split(".")[-1]}', '')
+        elif k in written and reads_all:
+            obs.unk(rule, writer_q, f'key {k!r} written by {writer_q.split(".")[-1]} is read by {reader_q.split(".")[-1]}',
+                    'the reader iterates over the whole mapping')
         elif k in written:
             obs.bad(rule, writer_q, f'key {k!r} written by {writer_q.split(".")[-1]} is read by {reader_q.split(".")[-1]}',
                     f'{writer_q} stores {k!r} but {reader_q} never reads it: the field is lost on load',
